@@ -537,6 +537,10 @@ class ParseLines:
             ):
                 description_data = self.splitdl(item.children[0])
                 if description_data is not None:
+                    # lines swallowed by this item ("; term : desc" followed by ";* sub") come after
+                    # the description in the source: they belong to the description, not to the term
+                    description_data.children.extend(item.children[1:])
+                    del item.children[1:]
                     broke_loop = True
                     break
             if prefix in ":;":
